@@ -642,11 +642,68 @@ func suiteC09(s *Shard, n int) {
 		}
 	}
 	for i := 0; i < n; i++ {
-		switch r.Intn(3) {
+		switch r.Intn(4) {
+		case 3: // suggested palettes in the 1-byte format whose entries are INDIRECT 1-byte colours (round 4, C09-H: resolved
+			// against the palette decoded so far instead of opaque black); the library's own encoder never writes these
+			ne := 2 + r.Intn(7)
+			body := []byte{0x02, byte(ne - 1)}
+			want := ivg.DefaultPalette
+			lv := []uint8{0x00, 0x40, 0x80, 0xc0, 0xff}
+			for k := 0; k < ne; k++ {
+				x := uint8(r.Intn(125))
+				switch r.Intn(5) {
+				case 0:
+					x = 125 + uint8(r.Intn(3))
+				case 1:
+					x = 0x80 | uint8(r.Intn(ne)) // a palette index: earlier, self or later
+				case 2:
+					x = 0xc0 | uint8(r.Intn(ne)) // a register index
+				}
+				body = append(body, x)
+				switch {
+				case x < 125:
+					want[k] = color.RGBA{lv[x/25], lv[x/5%5], lv[x%5], 0xff}
+				case x == 125:
+					want[k] = color.RGBA{0xc0, 0xc0, 0xc0, 0xc0}
+				case x == 126:
+					want[k] = color.RGBA{0x80, 0x80, 0x80, 0x80}
+				case x == 127:
+					want[k] = color.RGBA{}
+				default:
+					want[k] = color.RGBA{0, 0, 0, 0xff} // the specification: indirect colours in a suggested palette are opaque black
+				}
+			}
+			src := cat([]byte{0x89, 'I', 'V', 'G', 0x02, byte(len(body) << 1)}, body)
+			line := DecCase(nil, src)
+			s.EmitRun(line)
+			s.EmitRun(SpecCase(src))
+			s.Sig("pal1-indirect")
+			calls, err, pnc := Decode(nil, src)
+			if pnc != "" || err != nil || len(calls) == 0 {
+				s.Fail("C09.palette-one-byte-table", line, fmt.Sprint("a well-formed 1-byte palette is not decoded: ", err, pnc))
+			} else if calls[0].Pal != want {
+				for k := 0; k < ne; k++ {
+					if calls[0].Pal[k] != want[k] {
+						s.Fail("C09.palette-one-byte-table", line, fmt.Sprintf("suggested palette entry %d (byte %#02x) decodes to %v, the tables say %v", k, body[2+k], calls[0].Pal[k], want[k]))
+						break
+					}
+				}
+			}
 		case 0: // register assignments of every colour kind
 			var cs []Call
+			pal := r.Palette()
+			usePal := r.Chance(40)
+			if usePal {
+				// under a custom suggested palette, with colours that also occur IN that palette (round 4, C09-G: such a colour
+				// written as a reference to the palette entry)
+				cs = append(cs, Call{Name: "reset", VB: ivg.DefaultViewBox, Pal: pal})
+			}
 			for k := 0; k < 8; k++ {
-				cs = append(cs, Call{Name: "creg", Adj: uint8(r.Intn(7)), Col: r.Color()})
+				col := r.Color()
+				if usePal && r.Chance(40) {
+					col = ivg.RGBAColor(pal[r.Intn(1+r.Intn(64))])
+				}
+				cs = append(cs, Call{Name: "creg", Adj: uint8(r.Intn(7)), Col: col})
 			}
 			line := EncCase(cs)
 			s.EmitRun(line)
@@ -1109,6 +1166,24 @@ func suiteC12(s *Shard, n int) {
 				vb.MaxX, vb.MaxY = vb.MaxX-x0, vb.MaxY-y0
 			}
 		}
+		if r.Chance(6) {
+			// coincidences between the target and the viewBox (round 4, C12-G: a "1:1 fast path" returning the viewBox's own
+			// coordinates): the target is exactly the viewBox's size, or a power of two / small multiple of it, or equals it
+			// in one dimension only; the viewBox is off the origin
+			w, h := vb.MaxX-vb.MinX, vb.MaxY-vb.MinY
+			switch r.Intn(4) {
+			case 0:
+				dx, dy = w, h
+			case 1:
+				k := float32(math.Ldexp(1, r.Intn(7)-3))
+				dx, dy = w*k, h*k
+			case 2:
+				dx = w
+			default:
+				k := float32(1 + r.Intn(4))
+				dx, dy = w*k, h*k
+			}
+		}
 		ax, ay := []float32{0, 0.5, 1, float32(r.Intn(101)) / 100}[r.Intn(4)], []float32{0, 0.5, 1, float32(r.Intn(101)) / 100}[r.Intn(4)]
 		mode := []string{"meet", "slice", "size"}[r.Intn(3)]
 		line := FitCase(mode, vb, dx, dy, ax, ay)
@@ -1558,12 +1633,66 @@ func suiteC06(s *Shard, n int) {
 				ch := []float32{1.0 / 64, 1.0 / 256, 1.0 / 1024, 1.0 / 16}[r.Intn(4)]
 				x, y = []float32{ch, -ch, 0, ch}[r.Intn(4)], []float32{0, ch, -ch, ch}[r.Intn(4)]
 			}
+			if r.Chance(12) {
+				// the chord is EXACTLY a diameter (round 4, C06-G): radii that span the end points with nothing to spare, so
+				// that the quantity under the square root is zero in exact arithmetic and of either sign in floats
+				name = "a"
+				py := [][2]float32{{3, 4}, {4, 3}, {6, 8}, {5, 12}, {8, 15}, {7, 24}, {0, 5}, {5, 0}, {20, 21}, {12, 35}}[r.Intn(10)]
+				k := float32(math.Ldexp(1, r.Intn(7)-4))
+				x, y = py[0]*k, py[1]*k
+				if r.Bool() {
+					x = -x
+				}
+				if r.Bool() {
+					y = -y
+				}
+				d := float32(math.Hypot(float64(x), float64(y))) / 2
+				rx, ry = d, d
+				if r.Chance(25) {
+					// an ellipse with the chord along one axis after rotation by 0 or a quarter turn
+					rx, ry = d, d*float32(1+r.Intn(3))
+					x, y = 2*d, 0
+					rot = 0
+					if r.Bool() {
+						x, y = 0, 2*d
+						rx, ry = ry, rx
+					}
+				} else if r.Chance(70) {
+					rot = float32(1+r.Intn(15119)) / 15120
+				}
+			}
 			cs = append(cs, Call{Name: name, F: fl(rx, ry, rot, x, y), La: r.Bool(), Sw: r.Bool()})
 			if r.Chance(30) {
 				cs = append(cs, r.DrawCall(ProgOpts{}, drawVerbs[r.Intn(len(drawVerbs))]))
 			}
 		}
 		cs = append(cs, Call{Name: "Z"})
+		if r.Chance(15) {
+			// a second graphic on the same Renderer, no SetRasterizer in between (round 4, C06-H): its viewBox has the same
+			// size as the first one's but another origin (or is the very same), so that only the bias changes
+			vb2 := vb
+			if r.Chance(80) {
+				ox, oy := float32(r.Intn(129)-64), float32(r.Intn(129)-64)
+				vb2 = ivg.ViewBox{MinX: vb.MinX + ox, MinY: vb.MinY + oy, MaxX: vb.MaxX + ox, MaxY: vb.MaxY + oy}
+				if vb2.MaxX-vb2.MinX != vb.MaxX-vb.MinX || vb2.MaxY-vb2.MinY != vb.MaxY-vb.MinY {
+					vb2 = ivg.ViewBox{MinX: vb.MinX * 2, MinY: vb.MinY * 2, MaxX: vb.MaxX * 2, MaxY: vb.MaxY * 2}
+				}
+			}
+			cs = append(cs, Call{Name: "reset", VB: vb2, Pal: ivg.DefaultPalette}, Call{Name: "start", F: fl(r.Coord(), r.Coord())})
+			for k := 1 + r.Intn(2); k > 0; k-- {
+				rx, ry := float32(1+r.Intn(400))/8, float32(1+r.Intn(400))/8
+				if r.Chance(15) {
+					rx = 0
+				}
+				x, y := r.Coord(), r.Coord()
+				name := []string{"A", "a"}[r.Intn(2)]
+				if name == "a" && x == 0 && y == 0 {
+					x = 1
+				}
+				cs = append(cs, Call{Name: name, F: fl(rx, ry, float32(r.Intn(360))/360, x, y), La: r.Bool(), Sw: r.Bool()})
+			}
+			cs = append(cs, Call{Name: "Z"})
+		}
 		rect := r.Rect()
 		cs = r.Retarget(cs, rect, 10)
 		s.emitRen(rect, nil, cs)
@@ -1798,6 +1927,23 @@ func suiteC07(s *Shard, n int) {
 				}
 			}
 		}
+		if r.Chance(12) {
+			// an earlier graphic abandoned in the middle of a path, without Bytes(): Reset starts afresh (round 4, C07-H:
+			// buffered drawing arguments surviving Reset re-appear as extra repetitions in the next graphic)
+			ops = append(ops, GenOp{Kind: "call", Call: Call{Name: "reset", VB: ivg.DefaultViewBox, Pal: ivg.DefaultPalette}})
+			for k := r.Intn(3); k > 0; k-- {
+				ops = append(ops, GenOp{Kind: "call", Call: r.Styling(ProgOpts{})})
+			}
+			ops = append(ops, GenOp{Kind: "call", Call: Call{Name: "start", F: fl(float32(r.Intn(60)-30), float32(r.Intn(60)-30))}})
+			verb := drawVerbs[r.Intn(len(drawVerbs))]
+			for k := 1 + r.Intn(5); k > 0; k-- {
+				c := r.DrawCall(ProgOpts{}, verb)
+				for j := range c.F {
+					c.F[j] = float32(r.Intn(128) - 64)
+				}
+				ops = append(ops, GenOp{Kind: "call", Call: c})
+			}
+		}
 		ops = append(ops, GenOp{Kind: "call", Call: Call{Name: "reset", VB: ivg.DefaultViewBox, Pal: pal}})
 		for p := 1 + r.Intn(3); p > 0; p-- {
 			for k := r.Intn(6); k > 0; k-- {
@@ -1970,6 +2116,16 @@ func monitorC07(line string, ops []GenOp, s *Shard) (fails []Failure) {
 	var sel1 [][2]uint8
 	// "up to quantisation": a NaN whose payload sits in the two bits the 4-byte real form drops is an
 	// infinity in the format (C08: "NaN stays non-finite"); the direct pipeline gets what the format holds
+	// a Reset starts a new graphic: the Encoder forgets what came before it (C17), so what its bytes must reproduce is
+	// the history from the last Reset on; the Encoder itself is fed the whole history
+	lastReset := 0
+	for i, o := range ops {
+		if o.Kind == "call" && o.Call.Name == "reset" {
+			lastReset = i
+		}
+	}
+	all := ops
+	ops = ops[lastReset:]
 	ops1 := make([]GenOp, len(ops))
 	copy(ops1, ops)
 	for i, o := range ops1 {
@@ -1988,9 +2144,15 @@ func monitorC07(line string, ops []GenOp, s *Shard) (fails []Failure) {
 	var e encode.Encoder
 	e.HighResolutionCoordinates = true
 	var sel2 [][2]uint8
-	errs2, p2 := runGenInto(&hiResEncoder{&e}, ops, &sel2)
+	errs2, p2 := runGenInto(&hiResEncoder{&e}, all, &sel2)
 	if p1 != "" || p2 != "" {
 		return []Failure{{"C07.no-panic", line, p1 + p2}}
+	}
+	if len(sel2) >= lastReset {
+		sel2 = sel2[lastReset:]
+	}
+	if len(errs2) >= lastReset {
+		errs2 = errs2[lastReset:] // helper results of the abandoned graphic are not compared
 	}
 	if fmt.Sprint(errs1) != fmt.Sprint(errs2) {
 		fails = append(fails, Failure{"C07.helpers-agree", line, fmt.Sprintf("helper results differ: renderer %v encoder %v", errs1, errs2)})
@@ -2116,6 +2278,12 @@ func suiteC19(s *Shard, n int) {
 			// around the stop range [10, 10+n) and where it wraps past 63
 			cs0 = []uint8{0, 1, 2, 3, 4, 5, 8, 9, 10, 11, 12, 13, 14, 15, 60, 61, 62, 63}[r.Intn(18)]
 			ns0 = []uint8{0, 3, 4, 9, 10, 11, 16, 63}[r.Intn(8)]
+		}
+		if r.Chance(20) {
+			// the selector argument is any byte; both destinations keep its low six bits (round 4, C19-G: a Renderer that
+			// stores the argument unmasked answers CSel() = 75 and the helper's overlap test misses)
+			cs0 |= uint8(r.Intn(4)) << 6
+			ns0 |= uint8(r.Intn(4)) << 6
 		}
 		ops = append(ops, GenOp{Kind: "call", Call: Call{Name: "csel", U8: cs0}}, GenOp{Kind: "call", Call: Call{Name: "nsel", U8: ns0}})
 		for k := r.Intn(20) * r.Intn(2); k > 0; k-- {
